@@ -192,6 +192,26 @@ Proof.
   destruct (simple_stmt NM ctl); [right; left; cbn [p_off p_root]; auto|exact I].
 Qed.
 
+(* D37 / D40: a line taken for an opener must end in its block brace *)
+Lemma opener_without_brace_rejected rec dst root ctl off p :
+  classify ctl = TOpen -> N.eqb (last ctl 0%N) c_lbrace = false ->
+  exists r, process NM rec dst root ctl off p = SErr r /\ p_err r = Some PENoBrace.
+Proof.
+  unfold process, classify. intros C L.
+  destruct ctl as [|c0 ctl']; [discriminate|].
+  set (ctl := c0 :: ctl') in *.
+  destruct (N.eqb c0 c_hash || has_prefix (bs "//") ctl); [discriminate|].
+  destruct (mt re_reLoop ncap_reLoop ctl); [rewrite L; cbn [negb]; eexists; split; reflexivity|].
+  destruct (mt re_reCondOK ncap_reCondOK ctl); [rewrite L; cbn [negb]; eexists; split; reflexivity|].
+  destruct (mt re_reCond ncap_reCond ctl); [rewrite L; cbn [negb]; eexists; split; reflexivity|].
+  destruct (mt re_reCondElse ncap_reCondElse ctl); [discriminate|].
+  destruct (sub re_reSwitch ncap_reSwitch ctl); [rewrite L; cbn [negb]; eexists; split; reflexivity|].
+  destruct (sub re_reSwitchCaseHelper ncap_reSwitchCaseHelper ctl); [discriminate|].
+  destruct (mt re_reSwitchCase ncap_reSwitchCase ctl); [discriminate|].
+  destruct (mt re_reSwitchDefault ncap_reSwitchDefault ctl); [discriminate|].
+  destruct (N.eqb c0 c_rbrace); discriminate.
+Qed.
+
 Lemma consumed_of ctl k : classify ctl = k -> consumed ctl = match k with TClose => 1 | _ => List.length ctl end.
 Proof. intro H. unfold consumed. rewrite H. reflexivity. Qed.
 
